@@ -394,7 +394,10 @@ class SampledDimension(Dimension):
         if np.isclose(scaled_position, 0) and mode == IndexMode.Less:
             raise IndexError("Position {} is out of bounds for SampledDimension with mode {}".format(position, mode.name))
         index = int(np.round(scaled_position))
-        if np.isclose(scaled_position, index):
+        # the tolerance only absorbs floating point noise; the default rtol of
+        # 1e-5 treats positions half a sample off as "on the sample" from
+        # index 50000 upwards
+        if np.isclose(scaled_position, index, rtol=1e-9):
             # exact position
             if mode in (IndexMode.GreaterOrEqual, IndexMode.LessOrEqual):
                 # exact position and *Equal mode
@@ -818,7 +821,7 @@ class SetDimension(Dimension):
             ))
 
         index = int(np.floor(position))
-        if np.isclose(position, index):
+        if np.isclose(position, index, rtol=1e-9):
             # exact position
             if mode in (IndexMode.GreaterOrEqual, IndexMode.LessOrEqual):
                 # exact position and *Equal mode
